@@ -12,7 +12,7 @@ let () =
          let o = match l with
            | "C" -> Create (z_of_string a) | "G" -> Get (z_of_string a) | "P" -> Put (z_of_string a)
            | "D" -> Destroy (z_of_string a) | "R" -> Refcount (z_of_string a)
-           | "X" -> IterReset | "N" -> IterNext | _ -> failwith ("bad op " ^ l) in
+           | "F" -> CreateFail | "X" -> IterReset | "N" -> IterNext | _ -> failwith ("bad op " ^ l) in
          let before = List.length (dlog !d) in
          let (d', r) = step !d o in
          Buffer.add_string out line; Buffer.add_char out '\n';
